@@ -239,3 +239,63 @@ def h_restep(T: int, e: float, c0: int) -> bool:
     if not I.deq(snap1, I.snap_sim(rp1.s)):
         return False
     return tuple(rp1.u.step_update.instruction_generator_order) == order1 and len(order1) == 2
+
+
+def _human_payload(T, idle, r1c):
+    from nrel.hive.state.driver_state.human_driver_state.human_driver_state import HumanAvailable
+    from nrel.hive.state.driver_state.human_driver_state.human_driver_attributes import HumanDriverAttributes
+
+    cell = None
+    for k, c in enumerate((2, 5, 1)):  # r1 next to r0 (one dense search cell) / at F / at B (two equally dense search cells)
+        if r1c == k:
+            cell = c
+    if cell is None:
+        return None
+    env, rec = _env(0, 10, 60)
+    drv = HumanAvailable(HumanDriverAttributes("v0", "no-schedule", "b0", False))
+    v = replace(
+        A.V0, energy=immutables.Map({A.E: 40.0}), position=A.POS[3], driver_state=drv,
+        vehicle_state=replace(A.Idle.build("v0"), idle_duration=idle),
+    )
+    sim = sso.add_vehicle_safe(A.SIM0._replace(sim_time=mk_time(T), sim_timestep_duration_seconds=60), v).unwrap()
+    sim = sso.add_request_safe(sim, A.R0).unwrap()
+    sim = sso.add_request_safe(sim, replace(A.R1, position=A.POS[cell])).unwrap()
+    upd = Update((), StepSimulation.from_tuple(()))  # no fleet controller: only the driver's own decisions
+    return RunnerPayload(sim, env, upd)
+
+
+def _same_restep(rp0, times):
+    snap0 = I.snap_sim(rp0.s)
+    first = rp0.u.apply_update(rp0)  # ---- real code
+    ok = True
+    for _ in range(times):
+        again = rp0.u.apply_update(rp0)  # ---- the same check-point stepped again
+        if not I.deq(I.snap_sim(first.s, True), I.snap_sim(again.s, True)):
+            ok = False
+    return ok and I.deq(snap0, I.snap_sim(rp0.s)), first
+
+
+def h_restep_human(T: int, idle: int, r1c: int) -> bool:
+    """
+    C16: a check-point with a human-driven idle vehicle (symbolic idle time: before / past the time-out after which the driver
+    relocates on his own) and two requests in one or in two equally dense search cells is stepped twice: equal results.
+    Any randomness reachable from nrel.hive module globals is a solver-chosen draw (stubs.install_random_shim).
+    pre: 0 <= T <= 2000000000 and 0 <= idle <= 4000 and 0 <= r1c <= 2
+    post: _
+    """
+    stubs.install_random_shim()
+    rp0 = _human_payload(T, idle, r1c)
+    if rp0 is None:
+        return True
+    ok, first = _same_restep(rp0, 1)
+    note("restep-human", A.KIND_NAMES[A.kind_of_state(first.s.vehicles["v0"].vehicle_state)])
+    return ok
+
+
+def replay_h_restep_human(T, idle, r1c):
+    """replay on the real code: hidden state (e.g. a pseudo-random stream) may need several re-steps to show"""
+    rp0 = _human_payload(T, idle, r1c)
+    if rp0 is None:
+        return True
+    ok, _ = _same_restep(rp0, 64)
+    return ok
